@@ -69,7 +69,7 @@ func (e *ecCtx) check(c map[string]any, key *ecdsa.PrivateKey) {
 		if !ok || (v == "true") != goValid {
 			e.mismatch(c, "an independent ECDSA verifier and VerifyPublicKey disagree on a signature", ans, fmt.Sprintf("valid=%v class=%s", goValid, o.class))
 		} else {
-			res.Traces++
+			e.h.trace()
 		}
 	case "sign":
 		digest := unhx(str("digest"))
@@ -86,12 +86,12 @@ func (e *ecCtx) check(c map[string]any, key *ecdsa.PrivateKey) {
 			c["sig"] = s
 			e.mismatch(c, "VerifyPublicKey rejects an ECDSA signature made by an independent implementation", ans, fmt.Sprintf("kit valid=%v class=%s stdlib=%v", o.valid, o.class, std))
 		} else {
-			res.Traces++
+			e.h.trace()
 		}
 	}
 }
 
-func (h *H) ecdsaInterop() {
+func (h *H) ecdsaInterop(rng *lib.Rand) {
 	if h.f.Drv == "" {
 		h.res.Note("ecdsa interop: model driver unavailable, skipped")
 		return
@@ -104,7 +104,6 @@ func (h *H) ecdsaInterop() {
 	defer d.Close()
 	e := &ecCtx{h: h, drv: d}
 	ks := getKeys()
-	rng := h.rng.Fork()
 	thorough := h.f.Tier == "thorough"
 	for _, alg := range []string{"ES256", "ES384", "ES512"} {
 		curve := sigSpecs[alg].curve
@@ -118,7 +117,7 @@ func (h *H) ecdsaInterop() {
 			e.mismatch(map[string]any{"monitor": "params", "alg": alg}, "the curve constants of the independent implementation differ from the standard's", got, want)
 			continue
 		}
-		h.res.Traces++
+		h.trace()
 		nKeys := 1
 		if thorough {
 			nKeys = 2
